@@ -167,6 +167,7 @@ FILLERS = {
     'func0': 'f0', 'const': 'kc', 'sarr': 'sarr$', 'field2': 'r.fb',
     'parenarr': '(arr)', 'parenrec': '(r)', 'parenstr': '(s$)',
     'parennum': '(n%)', 'arrcall': 'arr()', 'negstr': '-s$',
+    'strmul': '"a" * 2', 'stradd': 's$ + 1', 'recadd': 'r + 1',
 }
 TEMPLATES = [
     'x = {0}', 'LET x% = {0}', 'x$ = {0}', 'r.fa = {0}', 'arr({0}) = {1}',
